@@ -1,6 +1,6 @@
 (* C16 — property theorems.  Nothing but statements, `exact`, Print Assumptions. *)
 From Coq Require Import Permutation.
-From G16 Require Import Model Check Proofs ParseProofs Obligations.
+From G16 Require Import Model Check Proofs ParseProofs Roundtrip Obligations.
 
 (* Applying a rule list computes the documented meaning: there is a chain of
    intermediate maps, each related to its predecessor by the pointwise
@@ -33,6 +33,11 @@ Print Assumptions T16_rename_conservative.
 Theorem T16_parse_legal : forall s r, parse_rule s = Some r -> legal_rule r = true.
 Proof. exact (fun s r => parse_legal s r ob_value_excludes_cr). Qed.
 Print Assumptions T16_parse_legal.
+
+(* ... and prints back to a string that parses to the same rule. *)
+Theorem T16_roundtrip : forall s r, parse_rule s = Some r -> parse_rule (print_rule r) = Some r.
+Proof. exact (fun s r => parse_roundtrip s r ob_value_excludes_cr ob_empty_form_checks_name). Qed.
+Print Assumptions T16_roundtrip.
 
 (* Rules keep header maps well formed (keys stay unique), so the above compose. *)
 Theorem T16_wf_preserved : forall rs h, wf h -> wf (apply_rules rs h).
